@@ -60,8 +60,13 @@ Definition emptied (s : smap) (p : path) : bool :=
 Definition has_descendant (s : smap) (p : path) : bool :=
   existsb (fun e => strict_prefix p (fst (fst e))) s.
 
-Inductive dev24 := RootUnwrap | SubtreeDeleted | ManagerDropped.
+Inductive dev24 := ManagerDropped.
 
+(* The one class left after fix f5fe3276 (the root is never destroyed, a node with children is kept):
+   a removal that leaves none of K1..K3 at a non-root path where an ObjectManager is registered, while
+   nothing is registered strictly below.  Node::is_empty does not count the manager, so the node is
+   destroyed with it — unless interface-less child nodes happen to keep it alive, which the flat map
+   cannot see: the class is an over-approximation of the histories that deviate. *)
 Definition flag24 (s : smap) (o : op) : option dev24 :=
   match o with
   | At _ _ _ => None
@@ -72,9 +77,9 @@ Definition flag24 (s : smap) (o : op) : option dev24 :=
           let s' := sdel s p k in
           if emptied s' p then
             match p with
-            | [] => Some RootUnwrap
+            | [] => None
             | _ :: _ =>
-                if has_descendant s' p then Some SubtreeDeleted
+                if has_descendant s' p then None
                 else match sget s' p KM with Some _ => Some ManagerDropped | None => None end
             end
           else None
